@@ -40,7 +40,9 @@ RULE = ("Documents = 23 feature shapes (plain scenarios, outlines with 0-2 examp
         "given as a plain argument is compared with the reference: entity starting at L, else nearest entity starting "
         "above L; 0/bare = all; unselected non-@setup/@teardown scenarios skipped. Every other selection (several "
         "locations, two files, absolute paths, @listfile) must select, per file, exactly the union of what its "
-        "locations select when given alone as plain arguments. Name selection: each scenario name, its words and "
+        "locations select when given alone as plain arguments. One file through two spellings/sources (9 sources x 9 sources x 4 line "
+        "pairs on 2 document pairs quick / 8 thorough): loaded once, union, each scenario once, first-mention order. "
+        "Name selection: each scenario name, its words and "
         "substrings, ^name$, alternations and two --name options, on every document. FileLocationParser / "
         "FeatureListParser on name, name:N, name:0, padded. A selection is non-trivial (and counted distinct by "
         "(document, locations)) when it selects a non-empty proper subset of the document's scenarios.")
@@ -49,6 +51,7 @@ ASSUMPTIONS = [
     "lines above the first entity of a file (language comment, feature tags) are not constrained by the statement: only 'does not raise' is demanded there",
     "an @setup/@teardown scenario that is not addressed is demanded to RUN (the statement only says it is not skipped)",
     "a scenario is an @setup/@teardown scenario by its OWN tags (outline rows: the generated scenario's tags, i.e. outline + examples-block tags); tags inherited from the feature or a rule do not exempt the scenarios below from being skipped",
+    "the SAME file mentioned in ADJACENT positions of a location list through different spellings/sources (plain relative, './' prefix, 'dir/../' detour, absolute; command-line argument, list file in the cwd / a sub-directory / a sibling directory, list file named absolutely) is one file: demanded are one Feature object, the union of the selections, every selected scenario run once, features in the order of first mention",
     "a file named in two non-adjacent positions of a location list may be loaded twice; demanded is only that, per file, the scenarios executed at least once are exactly the union of the selections",
     "scenario names used by the name-selection oracle are the names behave reports (outline rows: default annotation schema)",
     "harness discipline: the model objects that are run are never read by the check between parsing and ModelRunner.run() (walking a feature expands its outlines and fills ScenarioOutline's cache); expected sets come from the rendered document, should_skip and names from a second, separately parsed/loaded copy, executed scenarios are identified by (file, line, name) reported by the step functions, statuses are read after the run",
@@ -364,7 +367,11 @@ def run_features(features, config, reg):
         runner.run()
     finally:
         sys.stdout, sys.stderr = old
+    _LAST_LOG[:] = list(_LOG)
     return set(_LOG)
+
+
+_LAST_LOG = []
 
 
 class Sandbox(object):
@@ -650,6 +657,150 @@ def check_locations(case):
     return results
 
 
+# ---- one file, several SPELLINGS / SOURCES of its name in one location list ---------------------------------
+SPELL_SOURCES = ("arg:plain", "arg:dot-prefix", "arg:detour", "arg:absolute", "list-cwd:plain", "list-cwd:dot-prefix",
+                 "list-subdir:dotdot", "list-sibling:dotdot", "list-sibling-abs:dotdot")
+
+
+def spelled_path(sb, k, src, idx, line):
+    """command-line argument that names file #idx through one source/spelling; list files are written on the way
+    (one list file per item, in the cwd, in a sub-directory of it, or in a sibling directory of it)"""
+    plain = sb.FILES[idx]
+    detour = "features/sub/../" + plain[len("features/"):]
+    kind, spelling = src.split(":")
+    if kind == "arg":
+        path = {"plain": plain, "dot-prefix": "./" + plain, "detour": detour, "absolute": sb.abs[idx]}[spelling]
+        return _loc_text(path, line)
+    where = {"list-cwd": ("run", "", ""), "list-subdir": ("run/lists2", "lists2/", "../"),
+             "list-sibling": ("lists", "../lists/", "../run/"), "list-sibling-abs": ("lists", None, "../run/")}[kind]
+    entry = {"plain": plain, "dot-prefix": "./" + plain, "dotdot": where[2] + plain}[spelling]
+    d = os.path.join(sb.root, where[0])
+    if not os.path.isdir(d):
+        os.makedirs(d)
+    name = "sel_%d.txt" % k
+    with io.open(os.path.join(d, name), "w", encoding="utf-8", newline="") as f:
+        f.write(u"# list file %d\n%s\n" % (k, _loc_text(entry, line)))
+    return "@" + (os.path.join(d, name) if where[1] is None else where[1] + name)
+
+
+def check_spellings(case):
+    """case = ("spell", dockeys, [selection, ...]); selection = ((source, file_idx, line|None), ...)
+
+    The same feature file addressed through different spellings/sources in ONE run: the file is loaded once, the
+    selection is the union of the single selections, every selected scenario runs once, features come in the order
+    of their first mention."""
+    from behave.configuration import Configuration
+    from behave.runner_util import collect_feature_locations, parse_features
+    _, dockeys, selections = case
+    results = []
+    sb = Sandbox(dockeys)
+    try:
+        reg = _registry()
+        config = Configuration("", load_config=False)
+        config.reporters = []
+        singles = {}
+
+        def single(i, l):
+            if (i, l) not in singles:
+                feats = parse_features(collect_feature_locations([_loc_text(sb.FILES[i], l)]))
+                run_features(feats, config, reg)
+                calls = {}
+                for p_, line, _n in _LAST_LOG:
+                    calls[line] = calls.get(line, 0) + 1
+                singles[(i, l)] = calls
+            return singles[(i, l)]
+
+        for selection in selections:
+            sub = ("spell", dockeys, [selection])
+            srcs = sorted(set(src for src, _, _ in selection))
+            base = {"subcheck": "location-spelling"}
+            text = "[" + ", ".join("%s %s" % (src, _loc_text("ab"[i] + ".feature", l)) for src, i, l in selection) + "]"
+            try:
+                paths = [spelled_path(sb, k, src, i, l) for k, (src, i, l) in enumerate(selection)]
+                locs = collect_feature_locations(paths)
+                loc_names = [u"%s" % l_.filename for l_ in locs]
+                feats = parse_features(locs)
+                order = [sb.abs.index(os.path.abspath(f.filename)) for f in feats]
+                run_features(feats, config, reg)
+                log = list(_LAST_LOG)
+            except Exception as e:
+                results.append({"case": sub, "v": [(dict(base, clause="raises", exc=type(e).__name__, site=_site(e)),
+                                                    "%s raised %s: %s" % (text, type(e).__name__,
+                                                                          str(e).replace(sb.root, "<sandbox>")))],
+                                "out": "exc", "dg": ("exc", type(e).__name__)})
+                continue
+            v = []
+            first_mention = []
+            for _, i, _l in selection:
+                if i not in first_mention:
+                    first_mention.append(i)
+            nontrivial = False
+            for i in first_mention:
+                want = {}
+                for _, j, l in selection:
+                    if j == i:
+                        for line, n in single(i, l).items():
+                            want[line] = n                      # union; a scenario addressed twice still runs ONCE
+                got = {}
+                for p_, line, _n in log:
+                    if p_ == sb.abs[i]:
+                        got[line] = got.get(line, 0) + 1
+                nload = order.count(i)
+                if nload != 1:
+                    # trigger class: how the names behave compares relate, and which source delivered a name that
+                    # is not in normal form (the call site that skipped the normalisation)
+                    mine = [(src, nm) for (src, j, _l), nm in zip(selection, loc_names) if j == i] \
+                        if len(loc_names) == len(selection) else []
+                    normed = set(os.path.normpath(nm) for _, nm in mine)
+                    relation = "names-equal-after-normpath" if len(normed) == 1 else "names-equal-only-as-abspath"
+                    raw = sorted(set(src.split(":")[0].split("-")[0] for src, nm in mine if nm != os.path.normpath(nm)))
+                    base = dict(base, relation=relation, unnormalised_name_from="+".join(raw) or "none")
+                    v.append((dict(base, clause="same-file-loaded-%s" % ("twice" if nload > 1 else "never")),
+                              "%s -> arguments %r -> location names %r: file %s gives %d Feature objects (executed step calls per scenario "
+                              "line %r, the union of the single selections is %r)"
+                              % (text, [p_.replace(sb.root, "<sandbox>") for p_ in paths],
+                                 [n_.replace(sb.root, "<sandbox>") for n_ in loc_names], "ab"[i], nload, got, want)))
+                elif set(got) != set(want):
+                    v.append((dict(base, clause="selection-is-not-the-union"),
+                              "%s: executed scenario lines %r, union of the single selections %r"
+                              % (text, sorted(got), sorted(want))))
+                elif got != want:
+                    v.append((dict(base, clause="scenario-runs-more-than-once"),
+                              "%s: step calls per scenario line %r, in a single run %r" % (text, got, want)))
+                if want and len(want) < len(sb.docs[i].scen):
+                    nontrivial = True
+            dedup_order = [i for k, i in enumerate(order) if i not in order[:k]]
+            if not v and dedup_order != first_mention:
+                v.append((dict(base, clause="feature-order"), "%s: features come as %r, first mentions are %r"
+                          % (text, order, first_mention)))
+            results.append({"case": sub, "v": v, "n": 1,
+                            "nt": ("spell", dockeys, selection) if nontrivial and len(srcs) > 1 else None,
+                            "out": digest(("spell", dockeys, tuple(sorted(set((p_, l) for p_, l, _ in log))) and
+                                           tuple(sorted(set(l for _, l, _ in log))))),
+                            "dg": (order, sorted((os.path.basename(p_), l, n) for p_, l, n in log))})
+    finally:
+        sb.close()
+    return results
+
+
+def spelling_cases(dockeys_pairs, sources):
+    for dka, dkb in dockeys_pairs:
+        da = render(dka)
+        ents = [l for l, k, _ in da.ents if k in ("S", "row")]
+        s1, s2 = ents[0], ents[-1]
+        line_pairs = [(s1, s2), (s1, s1), (None, s2), (s2, da.nlines + 1)]
+        sels = []
+        for a in sources:
+            for b in sources:
+                for n, (l1, l2) in enumerate(line_pairs):
+                    sel = ((a, 0, l1), (b, 0, l2))
+                    if n == 0:
+                        sel = sel + (("arg:plain", 1, None),)       # a second file afterwards: order of features
+                    sels.append(sel)
+        for i in range(0, len(sels), 27):
+            yield ("spell", (dka, dkb), sels[i:i + 27])
+
+
 def name_patterns(doc):
     """pattern lists drawn from the scenario names of the document + regex fragments"""
     names = [doc.scen[l][0] for l in sorted(doc.scen)]
@@ -762,7 +913,8 @@ def check_names(case):
 
 # ---- FileLocationParser / FeatureListParser as pure functions -------------------
 FL_NAMES = (u"a.feature", u"features/a.feature", u"dir with space/a b.feature", u"/abs/x.feature",
-            u"features/ü.feature", u"odd:name/a.feature", u"a.feature:12/b.feature", u"./a.feature")
+            u"features/ü.feature", u"odd:name/a.feature", u"a.feature:12/b.feature", u"./a.feature",
+            u"../up/a.feature", u"sub/../a.feature")
 FL_SUFFIX = ((u"", None, "name"), (u":0", 0, "name:0"), (u":1", 1, "name:N"), (u":7", 7, "name:N"),
              (u":12", 12, "name:N"), (u":007", 7, "name:0N"), (u":1234567", 1234567, "name:N"))
 FL_PADS = ((u"", u"", "none"), (u" ", u"", "leading"), (u"", u"  ", "trailing"), (u"  ", u" ", "both"),
@@ -809,7 +961,10 @@ def check_listparse(case):
                         "exc": type(e).__name__}, "parse(%r, %r) raised %r" % (text, here, e))],
                 "dg": "exc", "out": "exc"}
     v = []
-    if got != want:
+    # the statement asks that an entry names the right FILE (relative to the list file) and line - not for a
+    # particular spelling of the path: compared after normalisation
+    got_n = [(os.path.normpath(f), l) for f, l in got]
+    if got_n != want:
         v.append(({"subcheck": "FeatureListParser", "clause": "locations-differ", "liststyle": style,
                    "here": "given" if here else "none"},
                   "FeatureListParser.parse(%r, here=%r) = %r, expected %r" % (text, here, got, want)))
@@ -935,7 +1090,7 @@ def run(ctx):
     ctx.sweep(check_flparse, [(n, s, p) for n in FL_NAMES for s in FL_SUFFIX for p in FL_PADS],
               chunk=64, name="FileLocationParser")
     entries2 = [tuple((n, s) for n, s in zip(FL_NAMES[i:i + 3], FL_SUFFIX[j:j + 3]))
-                for i in range(0, 6) for j in range(0, 5)]
+                for i in range(0, len(FL_NAMES) - 2) for j in range(0, 5)]
     ctx.sweep(check_listparse, [(e, st, here) for e in entries2
                                 for st in ("plain", "comments", "padded", "indented", "crlf")
                                 for here in (None, "/some/where", "rel/dir")],
@@ -953,6 +1108,11 @@ def run(ctx):
               name="two-file lists")
     ctx.sweep(check_locations, listfile_cases(two_q[:2] if ctx.quick else two, not ctx.quick), chunk=1,
               name="@listfile")
+    spell_docs = [(QUICK_DOCS[3], QUICK_DOCS[0]), (QUICK_DOCS[4], QUICK_DOCS[1])]
+    if not ctx.quick:
+        spell_docs += [(QUICK_DOCS[i], QUICK_DOCS[(i + 7) % len(QUICK_DOCS)]) for i in (5, 9, 11, 14, 17, 19)]
+    ctx.sweep(check_spellings, spelling_cases(spell_docs, SPELL_SOURCES), chunk=1,
+              name="one file, two spellings/sources")
     ctx.sweep(check_names, name_cases(docs), chunk=1, name="name selection")
 
     ctx.guard(len(ctx.nt) > (1500 if ctx.quick else 50000), "enough distinct non-trivial selections")
